@@ -188,8 +188,17 @@ def _fork_on_region(it, cls, pos, kwargs, e, reg):
         it.ctx.decide = dec
         try:
             variants.append(it.call(cls, pos, kwargs))
+        except RepoRaise as r:
+            if r.exc_name != "ValueError":
+                raise
+            variants.append(r)  # a range check that rejects one side with ValueError: input validation
         finally:
             it.ctx.decide = base
+    raised = [v for v in variants if isinstance(v, RepoRaise)]
+    if len(raised) == 2:
+        raise raised[0]
+    if len(raised) == 1:
+        return [v for v in variants if not isinstance(v, RepoRaise)][0]
     diff = obj_diff(variants[0], variants[1])
     if diff and getattr(it.ctx, "region_strict", False):
         raise RegionDependent(cls, e.cond, e.node, e.file, e.fn, diff)
